@@ -8,7 +8,7 @@
   order and reaches `st'`.  `run_of_Run`: if `st'` is the end state (stack dropped, as after
   `terminate()`), then `runLoop` with any sufficient fuel — in particular `run`'s own — yields exactly
   `out` and a clean verdict.  The fuel is handled once, here: `nextLoop` / `runLoop` are monotone in the
-  fuel (`nextLoop_mono`, `runLoop_mono`) and the built-in fuel never runs out (`next_fuel`,
+  fuel (`c02_nextLoop_mono`, `c02_runLoop_mono`) and the built-in fuel never runs out (`next_fuel`,
   `runLoop_fuel`, Proofs/TtlDocFuel.lean).
 -/
 import RdfModel.Proofs.TtlDocFuel
@@ -18,7 +18,7 @@ open RdfModel
 variable {C : Cfg} {e : End}
 
 /-- more fuel does not change a result that was reached -/
-theorem nextLoop_mono : ∀ (a : Nat) (cur : Option Frame) (st : St) (b : Nat), a ≤ b →
+theorem c02_nextLoop_mono : ∀ (a : Nat) (cur : Option Frame) (st : St) (b : Nat), a ≤ b →
     nextLoop C e a cur st ≠ .outOfFuel → nextLoop C e b cur st = nextLoop C e a cur st := by
   intro a
   induction a with
@@ -47,12 +47,12 @@ theorem nextLoop_mono : ∀ (a : Nat) (cur : Option Frame) (st : St) (b : Nat), 
       · simp only [hs, ↓reduceIte]
     · simp only [he, ↓reduceIte]
 
-theorem nextLoop_det {a b : Nat} {cur : Option Frame} {st : St}
+theorem c02_nextLoop_det {a b : Nat} {cur : Option Frame} {st : St}
     (ha : nextLoop C e a cur st ≠ .outOfFuel) (hb : nextLoop C e b cur st ≠ .outOfFuel) :
     nextLoop C e a cur st = nextLoop C e b cur st := by
   rcases Nat.le_total a b with h | h
-  · exact (nextLoop_mono a cur st b h ha).symm
-  · exact nextLoop_mono b cur st a h hb
+  · exact (c02_nextLoop_mono a cur st b h ha).symm
+  · exact c02_nextLoop_mono b cur st a h hb
 
 /-- `rsNext` may as well sit on the stack (as long as no error is latched) -/
 theorem nextLoop_fold (n : Nat) (cur : Option Frame) (st : St) (he : st.err = none) :
@@ -158,7 +158,7 @@ theorem next_step_silent (hC : C.P.Consumes) {st st1 : St} (h : Step1 C e st [] 
   have n2 := (next_fuel (e := e) hC (pushCur cur' st2)).1
   rw [e1, nextLoop_one hscan] at n1 ⊢
   rw [e2] at n2 ⊢
-  exact nextLoop_det n1 n2
+  exact c02_nextLoop_det n1 n2
 
 /-- a step that emits makes `Next()` answer true, with the emitted statement first -/
 theorem next_step_emit (hC : C.P.Consumes) {st st1 : St} {s : Stmt} (h : Step1 C e st [s] st1) :
@@ -184,7 +184,7 @@ theorem next_step_emit (hC : C.P.Consumes) {st st1 : St} {s : Stmt} (h : Step1 C
   refine ⟨pushCur cur' st2, by rw [e1, nextLoop_one hscan, hyes], hp_st, ?_⟩
   cases cur' <;> simp [St.dropped, pushCur, h2]
 
-theorem runLoop_mono : ∀ (a : Nat) (st : St) (b : Nat), a ≤ b → (runLoop C e a st).2 ≠ .outOfFuel →
+theorem c02_runLoop_mono : ∀ (a : Nat) (st : St) (b : Nat), a ≤ b → (runLoop C e a st).2 ≠ .outOfFuel →
     runLoop C e b st = runLoop C e a st := by
   intro a
   induction a with
@@ -256,7 +256,7 @@ theorem run_of_Run (hC : C.P.Consumes) (base : Option (List Nat)) (pf : List (Li
   unfold run
   simp only
   have hf := runLoop_fuel (e := e) hC ((init base pf inp).cost + 1) (init base pf inp) (Nat.lt_succ_self _)
-  have := runLoop_mono ((init base pf inp).cost + 1) (init base pf inp) (max N ((init base pf inp).cost + 1))
+  have := c02_runLoop_mono ((init base pf inp).cost + 1) (init base pf inp) (max N ((init base pf inp).cost + 1))
     (Nat.le_max_right _ _) hf
   rw [← this]
   exact hN _ (Nat.le_max_left _ _)
